@@ -847,6 +847,21 @@ class FakeThreadPoolExecutor(_PoolBase):
                     it[0].cancel()
         self._shutdown(wait=wait)
 
+    def map(self, fn, *iterables, timeout=None, chunksize=1):
+        # concurrent.futures.Executor.map: everything is submitted at call time; results are collected in order and what
+        # is left is cancelled when the result iterator is closed
+        fs = [self.submit(fn, *args) for args in zip(*iterables)]
+
+        def result_iterator():
+            try:
+                fs.reverse()
+                while fs:
+                    yield fs.pop().result()
+            finally:
+                for f in fs:
+                    f.cancel()
+        return result_iterator()
+
     def __enter__(self):
         return self
 
@@ -868,11 +883,66 @@ class FakeMPPool(_PoolBase):
     def __init__(self, processes=None, *a, **k):
         super().__init__(processes)
         self.state = 'RUN'
+        self._feeders = []
 
     def apply_async(self, func, args=(), kwds=None, callback=None, error_callback=None):
         if self.state != 'RUN':
             raise ValueError('Pool not running')
         return self._submit(func, tuple(args), dict(kwds or {}))
+
+    # imap / imap_unordered / map: as in multiprocessing.pool, the pool's task-handler thread drains the input iterable
+    # on its own, as fast as it can and without any bound; the caller only waits for results
+    def _imap(self, func, iterable, ordered):
+        if self.state != 'RUN':
+            raise ValueError('Pool not running')
+        st = {'futs': [], 'done': False, 'exc': None}
+        lab = ('q', CUR.new_id('q') if CUR else 0)
+
+        def feed():
+            try:
+                for x in iterable:
+                    _pt(lab)
+                    if self.terminated:
+                        return
+                    st['futs'].append(self._submit(func, (x,), {}))
+            except Abort:
+                raise
+            except BaseException as e:      # noqa: BLE001  (re-raised by next() at that position)
+                st['exc'] = e
+            finally:
+                st['done'] = True
+        t = FakeThread(target=feed, name='mppool-taskhandler')
+        self._feeders.append(t)
+        t.start()
+
+        def results():
+            i = 0
+            while True:
+                _pt(lab, lambda: len(st['futs']) > i or st['done'])
+                if len(st['futs']) > i:
+                    if ordered:
+                        f = st['futs'][i]
+                    else:
+                        pend = [x for x in st['futs'] if not getattr(x, '_taken', False)]
+                        _pt(lab, lambda: any(x.state in (CANCELLED, FINISHED) for x in pend))
+                        f = next(x for x in pend if x.state in (CANCELLED, FINISHED))
+                        f._taken = True
+                    i += 1
+                    yield f.result()
+                elif st['exc'] is not None:
+                    raise st['exc']
+                else:
+                    return
+        return results()
+
+    def imap(self, func, iterable, chunksize=1):
+        return self._imap(func, iterable, True)
+
+    def imap_unordered(self, func, iterable, chunksize=1):
+        return self._imap(func, iterable, False)
+
+    def map(self, func, iterable, chunksize=None):
+        return list(self._imap(func, list(iterable), True))
 
     def close(self):
         if self.state == 'RUN':
@@ -883,6 +953,8 @@ class FakeMPPool(_PoolBase):
         if self.state != 'TERMINATE':
             self.state = 'TERMINATE'
             self._shutdown(wait=True, drop_pending=True)
+            for t in self._feeders:
+                t.join()
 
     def join(self):
         if self.state == 'RUN':
